@@ -352,6 +352,7 @@ LEVEL_TEXT = ("Generated search over 1,600 / 24,000 graphs of order 1..4 (arc su
               "6,000 constructed regular graphs: on every graph the oracle classifies as admissible the capacity with "
               "2..10 seeded random starts and with the single deterministic start must be within 1e-4 of log2 of a "
               "certified spectral radius; upper bound 2, arc-less = 0 and exact log2 d on d-regular graphs (incl. "
-              "arcs into dead vertices) are checked on all graphs.")
+              "arcs into dead vertices) are checked on all graphs."
+              ' 3,000 / 40,000 further graphs (incl. constructed periodic ones) run with iteration budgets 2..500 and tolerance levels -6..-14: no result may exceed 2, no repeat may overrun its budget.')
 LEVEL_NOTE = ("Trusted: Tarjan/period/Collatz-Wielandt code in pbt/oracles.py; numpy.linalg.eigvals only for the "
               "second eigenvalue behind a 0.85 safety margin. Graphs near the gap limit are excluded, not judged.")
